@@ -91,10 +91,21 @@ class AsyncSession:
             self.advance(0.1)
         return False
 
+    def exit_context(self, limit=900.0):
+        """leave the manager context; -> True if __aexit__ returned within `limit` virtual seconds
+        (the task is left pending otherwise: code that swallows cancellation must not hang the harness)"""
+        task = self.loop.create_task(self.man.__aexit__(None, None, None), name="GV:exit")
+        self.run(asyncio.wait({task}, timeout=limit))
+        self.entered = False
+        if task.done():
+            task.result()
+            return True
+        return False
+
     def close(self):
         try:
             if self.entered:
-                self.run(self.man.__aexit__(None, None, None))
+                self.exit_context()
         finally:
             self.world.__exit__(None, None, None)
 
